@@ -18,6 +18,10 @@ Line-protocol front end of the C10 model (requests after the leading `C10` field
        obs    := B | <chanops obs> | sp:t | u | ab
        thread := t:parent:returned(0|1):ctxdone-now(0|1):abortable-at-some-point(0|1)
        chan   := buflen:closed:sent:dequeued:delivered:pending
+  pclose <cap> <op,op,…>              → <impl obs,…> TAB <closedAndDrained before each step, 0|1,…> TAB sent:dequeued:delivered:buflen:closed TAB ok|violated
+       (a produce-then-close round as one schedule; ok = every step that reports "closed" — nil / end — was taken in a closed and drained state)
+  vms <vop,vop,…>                     → <vmOf,…> TAB distinct|shared TAB own|derailed TAB <ip,…> TAB <pos,…>
+       vop := sp:p:(f|b|m) (thread p spawns a compiled function | builtin | bound method) | x:t (thread t executes a script step)
 -/
 namespace Risor.C10
 open Risor.Util
@@ -130,6 +134,26 @@ def netTrace (s : Net) (ab : List Nat) : List NOp → List (Option NObs) × Net 
     | some (s', ob) => let (r, sf, abf) := netTrace s' (ab ++ abortable s) os; (some ob :: r, sf, abf)
     | none => let (r, sf, abf) := netTrace s ab os; (none :: r, sf, abf)
 
+def parseVOp (s : String) : Option VOp :=
+  match s.splitOn ":" with
+  | ["sp", p, "f"] => do pure (.spawn (← natOf p) .fn)
+  | ["sp", p, "b"] => do pure (.spawn (← natOf p) .builtin)
+  | ["sp", p, "m"] => do pure (.spawn (← natOf p) .method)
+  | ["x", t] => do pure (.exec (← natOf t))
+  | _ => none
+
+/-- per step: was the channel closed and drained before it; and: did every "closed" report
+    happen in such a state -/
+def closedTrace (c : Chan) : List Op → List Bool × Bool
+  | [] => ([], true)
+  | o :: os =>
+    let cd := closedAndDrained c
+    match step c o with
+    | some (c', ob) =>
+      let (r, ok) := closedTrace c' os
+      (cd :: r, ok && (!ob.reportsClosed || cd))
+    | none => let (r, ok) := closedTrace c os; (cd :: r, ok)
+
 def b01 (b : Bool) : String := if b then "1" else "0"
 
 def joinC (xs : List String) : String := if xs.isEmpty then "-" else ",".intercalate xs
@@ -169,6 +193,22 @@ def handle : List String → String
       joinC (obs.map showNObs) ++ "\t" ++ (if threads.isEmpty then "-" else ";".intercalate threads) ++ "\t"
         ++ (if chans.isEmpty then "-" else ";".intercalate chans)
     | _, _ => "error\tbad-request"
+  | ["pclose", cap, ops] =>
+    match natOf cap, (listOf "," ops).mapM parseOp with
+    | some cap, some ops =>
+      let (impl, cf) := trace step (init cap) ops
+      let (cds, ok) := closedTrace (init cap) ops
+      joinC (impl.map showObs) ++ "\t" ++ joinC (cds.map b01) ++ "\t"
+        ++ toString cf.sent.length ++ ":" ++ toString cf.deq.length ++ ":" ++ toString cf.deliv.length ++ ":"
+        ++ toString cf.buf.length ++ ":" ++ toString cf.closed ++ "\t" ++ (if ok then "ok" else "violated")
+    | _, _ => "error\tbad-request"
+  | ["vms", ops] =>
+    match (listOf "," ops).mapM parseVOp with
+    | some ops =>
+      let s := vtrace true {} ops
+      joinC (s.vmOf.map toString) ++ "\t" ++ (if distinctVMs s then "distinct" else "shared") ++ "\t"
+        ++ (if ownProgress s then "own" else "derailed") ++ "\t" ++ joinC (s.ip.map toString) ++ "\t" ++ joinC (s.pos.map toString)
+    | none => "error\tbad-request"
   | _ => "error\tunknown-request"
 
 end Risor.C10
